@@ -220,6 +220,9 @@ def pred_cases(rng, tier):
     out += [{"kind": "p", "which": 7, "arg": s0 * 1000 + 100 + cl, "site": s0, "cl": cl, "mysql": True} for cl in (8, 9, 3)]
     for site in range(7):
         out += [{"kind": "p", "which": 8, "arg": site * 100 + cl, "site": site, "cl": cl} for cl in (0, 3, 4, 5)]
+    # HTTP client: api/httpc Service (NewService / NewServiceWithClient) against an httptest server, 200 requests per status
+    out += [{"kind": "p", "which": 10, "arg": st, "ctor": i % 2}
+            for i, st in enumerate([200, 204, 400, 401, 404, 429, 499, 500, 502, 503, 599, 1000])]
     # RPC breaker interceptors: every gRPC code returned, and panics (string / error)
     for which in (5, 6, 9):
         out += [{"kind": "p", "which": which, "arg": c} for c in GRPC_CODES]    # one sustained stream per code, every run
@@ -311,7 +314,7 @@ def gen_engine(rng, side):
         for _ in range(rng.randint(0, 5)):
             calls.append(rng.choice([[0, 200], [1, 0], [2, 0]]) + [0])
         for _ in range(rng.randint(90, 140)):
-            calls.append(rng.choice([[4, 0], [5, 0]]) + [0])
+            calls.append(rng.choice([[4, 0], [5, 0], [7, 0], [8, 0], [9, 0]]) + [0])
     elif shape < 0.8:
         for _ in range(rng.randint(80, 140)):
             calls.append(rng.choice([[0, 200], [0, 404], [0, 499], [1, 0], [2, 0], [0, 301]]) + [0])
@@ -337,12 +340,21 @@ def mixed_cases(rng, tier):
         # the engine's own chain: a handler that panics on every request (every run, both timeout settings)
         fixed.append({"kind": "m", "side": side, "timeout": 0 if side == 3 else 3000,
                       "calls": [[0, 200, 0]] * rng.randint(0, 4) + [[4 + (i % 2), 0, 0] for i in range(120)]})
+        # ... and one aborting every request with the sentinel http.ErrAbortHandler (what ReverseProxy raises), panic(nil), runtime errors
+        fixed.append({"kind": "m", "side": side, "timeout": 0 if side == 3 else 3000,
+                      "calls": [[0, 200, 0]] * rng.randint(0, 4) + [[8, 0, 0]] * 110})
+        fixed.append({"kind": "m", "side": side, "timeout": 0 if side == 3 else 50,
+                      "calls": [[rng.choice([7, 8, 9]), 0, 0] for _ in range(110)]})
         fixed.append(gen_engine(rng, side))
     # the composed client chain of rpc/internal/client.go over a real transport: a backend overrunning the client timeout
     fixed.append({"kind": "m", "side": 5, "timeout": 5,
                   "calls": [[0, 0, 0]] * rng.randint(0, 3) + [[6, 0, 0]] * 75 + [[0, 0, 0]] * 5})
     fixed.append({"kind": "m", "side": 5, "timeout": rng.choice([5, 8]),
                   "calls": [rng.choice([[0, 0, 0], [0, 5, 0], [0, 16, 0], [6, 0, 0], [0, 14, 0]]) for _ in range(rng.randint(40, 80))]})
+    # a STARTED rpc/internal Server (Start's chain, timeout interceptor added through AddUnaryInterceptors): a hung handler
+    fixed.append({"kind": "m", "side": 6, "calls": [[0, 0, 0]] * rng.randint(0, 3) + [[6, 0, 0]] * 75 + [[0, 0, 0]] * 5})
+    fixed.append({"kind": "m", "side": 6,
+                  "calls": [rng.choice([[0, 0, 0], [0, 5, 0], [0, 16, 0], [6, 0, 0], [0, 13, 0]]) for _ in range(rng.randint(40, 80))]})
     return fixed + [gen_mixed(rng, i % 3) for i in range(k)]
 
 
@@ -355,7 +367,7 @@ def generate(rng, tier, n):
 
 PKG = {0: "./rpc/internal/codes", 1: "./lib/store/sqlx", 2: "./lib/store/redis", 3: "./api/handler",
        5: "./rpc/internal/serverinterceptors", 6: "./rpc/internal/clientinterceptors",
-       7: "./lib/store/sqlx", 8: "./lib/store/redis", 9: "./rpc/internal/serverinterceptors"}
+       7: "./lib/store/sqlx", 8: "./lib/store/redis", 9: "./rpc/internal/serverinterceptors", 10: "./api/httpc"}
 
 
 def wire(c):
@@ -375,8 +387,8 @@ def drive(cases, tier):
     groups = [("b", None, "./lib/breaker"), ("h", None, "./api/handler")] + [("p", w, PKG[w]) for w in sorted(PKG)]
     groups.append(("r", None, "./lib/breaker"))
     groups += [("m", 0, "./rpc/internal/clientinterceptors"), ("m", 1, "./rpc/internal/serverinterceptors"), ("m", 3, "./api"),
-               ("m", 5, "./rpc/internal")]
-    mgroup = {0: 0, 1: 1, 2: 1, 3: 3, 4: 3, 5: 5}
+               ("m", 5, "./rpc/internal"), ("m", 6, "./rpc/internal")]
+    mgroup = {0: 0, 1: 1, 2: 1, 3: 3, 4: 3, 5: 5, 6: 6}
     for kind, which, pkg in groups:
         if kind == "m":
             idx = [i for i, c in enumerate(cases) if c["kind"] == "m" and mgroup[c["side"]] == which]
@@ -386,9 +398,11 @@ def drive(cases, tier):
             continue
         # the sqlx / redis / api-handler packages also hold other properties' drivers: ours is TestVerifDriverC01 there
         run = "^TestVerifDriverC01$" if pkg in ("./lib/store/sqlx", "./lib/store/redis", "./api/handler",
-                                               "./rpc/internal/serverinterceptors", "./rpc/internal/clientinterceptors", "./api", "./rpc/internal") else "^TestVerifDriver$"
+                                               "./rpc/internal/serverinterceptors", "./rpc/internal/clientinterceptors", "./api", "./rpc/internal", "./api/httpc") else "^TestVerifDriver$"
         if kind == "r":
             run = "^TestVerifDriverReg$"
+        if kind == "m" and which == 6:
+            run = "^TestVerifDriverC01Srv$"
         o, lg = run_driver(pkg, [wire(cases[i]) for i in idx], name="C01%s%s_%s" % (kind, "" if which is None else which, tier),
                            timeout=600, run=run)
         logs.append(lg[-1500:])
@@ -416,7 +430,7 @@ OUT = ["OK", "AcceptableErr", "UnacceptableErr", "Panics", "PanicsNil", "InnerUn
 def encode(case, obs):
     if case["kind"] == "m":
         calls = [cpair(cnat(c[0]), cZ(c[1]), cnat(c[2])) for c in case["calls"]]
-        if case["side"] == 5:
+        if case["side"] in (5, 6):
             rows = obs.get("rows", [])
             rej, st = [r[0] == 1 for r in rows], [r[1] for r in rows]
         elif case["side"] >= 3:
@@ -466,7 +480,7 @@ def nontrivial(case, obs):
 
 def bucket(case, obs):
     if case["kind"] == "m":
-        rej = obs.get("rej") or [(r[0] if case["side"] == 5 else 1 - r[1]) for r in obs.get("rows", [])]
+        rej = obs.get("rej") or [(r[0] if case["side"] in (5, 6) else 1 - r[1]) for r in obs.get("rows", [])]
         out = ["kind:m", "m:side=%d" % case["side"], "m:cutoff=%s" % any(rej), "m:names=%d" % len({c[2] for c in case["calls"]})]
         out += sorted({"m:class=%d" % c[0] for c in case["calls"]})
         return out
